@@ -68,6 +68,8 @@ def cex_to_text(cex):
         lines.append("file " + " ".join(str(x) for x in fl))
     for op in cex.get("db", []):
         lines.append("db " + " ".join(str(x) for x in op))
+    if "moves" in cex:
+        lines.append("moves %s" % cex["moves"])
     if "block_size" in cex:
         lines.append("block_size %d" % cex["block_size"])
     for e in cex.get("entries", []):
@@ -142,12 +144,65 @@ def family_db_snapshot(seed):
     ]
 
 
+def family_db_views(seed):
+    """Whole-database histories with snapshots, flushes and compactions; every view is read back
+    through get and through the iterator in both directions (oracle db_views)."""
+    a = lambda s: s.encode().hex() if s else "-"
+    P = lambda k, v: ["put", a(k), a(v)]
+    D = lambda k: ["delete", a(k)]
+    S, F, C = ["snapshot"], ["flush"], ["compact"]
+    fam = []
+    # a tombstone exactly at the oldest snapshot, older value below it, then compaction
+    fam.append([P("k", "v1"), D("k"), S, F, C, P("j", "x"), F, C])
+    fam.append([P("k", "v1"), S, D("k"), S, P("k", "v2"), S, F, C])
+    fam.append([P("a", "1"), P("b", "2"), P("c", "3"), F, D("b"), S, P("b", "4"), F, C, D("a"), F, C])
+    # deleted and overwritten keys between visible ones, in memtable and files, walked both ways
+    fam.append([P("a", "1"), P("b", "2"), P("c", "3"), P("d", "4"), D("b"), P("c", "33"), S, D("c"), P("e", "5"), D("a")])
+    fam.append([P("a", "1"), P("b", "2"), F, P("c", "3"), D("b"), F, P("b", "5"), D("c"), S, P("d", "1"), D("d"), P("c", "9")])
+    fam.append([P("b", "1"), F, C, P("a", "1"), F, P("c", "1"), F, D("b"), F, S, P("b", "2"), C])
+    fam.append([P("a", "1"), D("a"), P("a", "2"), D("a"), P("b", "1"), P("a", "3"), S, D("a"), D("b")])
+    # deeper levels: data pushed down by repeated compaction, then shadowed / deleted above
+    fam.append([P("a", "old"), P("m", "old"), P("z", "old"), F, C, P("m", "new"), F, S, D("m"), F, C, D("a"), F, S, C])
+    # pseudo-random histories over a small key space
+    x = (seed * 2654435761 + 12345) & 0xffffffff
+    def rnd(n):
+        nonlocal x
+        x = (x * 1103515245 + 12345) & 0x7fffffff
+        return (x >> 8) % n
+    keys = ["a", "ab", "b", "c", "d", "e", ""]
+    for h_ in range(10):
+        ops = []
+        for i in range(30 + 5 * h_):
+            r = rnd(20)
+            k = keys[rnd(len(keys) - (0 if h_ % 3 == 0 else 1))]
+            if r < 9:
+                ops.append(P(k, "v%d" % i))
+            elif r < 14:
+                ops.append(D(k))
+            elif r < 16:
+                ops.append(S)
+            elif r < 19:
+                ops.append(F)
+            else:
+                ops.append(C)
+        ops += [F, C]
+        fam.append(ops)
+    moves = ["nnpnppnnnpnpp", "npnpnnppnnnnppppp", "nnnnnnpppppp"]
+    return [{"oracle": "db_views", "db": ops, "moves": moves[i % len(moves)]} for i, ops in enumerate(fam)]
+
+
 FAMILIES = [
     ("U19::write_snapshot_record_file", family_db_snapshot),
     ("U10::implTable::get", family_table_get),
     ("U05::", family_log_reader),
     ("U04::", family_log_reader),
     ("U14::implFileMetadata::get_key_range_for_files", family_key_range),
+    # everything else that is observable through the database API: whole-database histories
+    ("U25::", family_db_views), ("U29::", family_db_views), ("U18::", family_db_views), ("U17::", family_db_views),
+    ("U16::", family_db_views), ("U20::", family_db_views), ("U15::", family_db_views), ("U19::", family_db_views),
+    ("U13::", family_db_views), ("U14::", family_db_views), ("U10::", family_db_views), ("U11::", family_db_views),
+    ("U08::", family_db_views), ("U12::", family_db_views), ("U27::", family_db_views), ("U28::", family_db_views),
+    ("U02::", family_db_views),
 ]
 
 
